@@ -133,7 +133,7 @@ func enumerate(thorough bool) (sp spaces, extra map[string]any) {
 	// 2. oversized streams x one representative of the others
 	sizes := func(cmd string, important bool) []int {
 		if thorough || important {
-			return []int{65, 1024}
+			return []int{65, 512}
 		}
 		return []int{65}
 	}
@@ -321,12 +321,12 @@ func main() {
 		return
 	}
 	r := hx.New("C17")
-	r.Rule = "E3: every behaviour tuple (command, exit, stdout kind, stderr kind, timing, context, request size) of the stated alphabet is run once as a real process through the real CLIPlugin: full product command x exit x stdout x stderr for the cheap kinds; oversized streams (65 MiB, 1 GiB) and timing/context behaviours crossed with one representative of the other dimensions. Non-trivial = distinct tuples on which at least one judged clause applied (success forbidden / control / error type / cap / bounded delay)."
+	r.Rule = "E3: every behaviour tuple (command, exit, stdout kind, stderr kind, timing, context, request size) of the stated alphabet is run once as a real process through the real CLIPlugin: full product command x exit x stdout x stderr for the cheap kinds; oversized streams (65 MiB, 512 MiB) and timing/context behaviours crossed with one representative of the other dimensions. Non-trivial = distinct tuples on which at least one judged clause applied (success forbidden / control / error type / cap / bounded delay)."
 	r.Assumptions = []string{
 		"stdout/stderr kinds are hand-labelled (honest, invalid-metadata:<clause>, undecodable, oversize, unjudged; structured:<code>, unstructured, huge); the oracle never parses a reply",
 		"null, {} and replies with extra members are recorded but not judged on the non-metadata commands; an honest reply with noise on stderr and exit 0 may be refused (implication)",
 		"the only timing oracle: a call returns within 20 s of the end of its context (expected <= 5.3 s with WaitDelay = 5 s; the descendant holds the pipes for 60 s); contexts of 300 ms are only combined with behaviours that outlast them by 60 s",
-		"cap monitor: peak RSS (VmHWM) growth of a dedicated worker process during the call <= 4 x 64 MiB per oversized stream; 1 GiB emitters make an unbounded buffer visible",
+		"cap monitor: peak RSS (VmHWM) growth of a dedicated worker process during the call <= 4 x 64 MiB per oversized stream; 512 MiB emitters make an unbounded buffer visible",
 		"Linux /proc, /bin/sh and setsid available; plugin descendants are found and killed by the scratch path in their command line",
 	}
 	scratch := hx.Scratch()
